@@ -59,6 +59,15 @@ def eval_case(case):
                     out.append(O.V("a run that leaves %s at its default inherits the previous run's setting" % omit[0],
                                    "C10/default-inherits", {"diff": df[:3], "omit": omit}))
             b = bA
+        if op.get("abs"):
+            # the project's own absence_time_list object handed back as the argument of the next call
+            bA, trA = sim.run_ops(case, want_snaps=False, ops=[op, dict(op, alias_abs=True)])
+            bB, trB = sim.run_ops(case, want_snaps=False, ops=[op, op])
+            if all(r["exc"] is None for r in trA + trB):
+                df = O.dump_diff(trA[1]["dump"], trB[1]["dump"])
+                if df:
+                    out.append(O.V("simulate(absence_time_list=project.absence_time_list) differs from the same call with a copy of that list",
+                                   "C10/alias", df[:3]))
     from .. import modelrun
     return {"violations": out, "disagreements": modelrun.compare(case, trace, modelrun.FULL), "sig": simcheck.behaviour_sig(S, trace) + (deleted, tuple(sorted(set(op.get("abs", []))))[:4]),
             "hist": dict(simcheck.base_hist(S, trace), deletion_checked=int(deleted)),
